@@ -3,14 +3,17 @@
 
    Model: Model/Sync.v.  A notes ref is a node of a DAG kept in one append-only store; each of
    the n clones has refs/notes/ai (local) and refs/notes/ai-remote/origin (tracking); the remote
-   has its tip.  Transitions: Commit c k v, FetchTracking c, MergeLocal c, PushRef c
-   (non-forced, silently skipped when rejected).  FetchNotes c = [FetchTracking c; TestLocal c;
-   MergeLocal c], PushNotes c = FetchNotes c ++ [PushRef c]; the sub-steps are separate
+   has its tip.  Transitions: Commit c k v, FetchTracking r c, TestLocal r c, MergeLocal r c,
+   PushRef r c (non-forced; a rejection is recorded in the clone's flag).  One round is
+   attempt r c = [FetchTracking r c; TestLocal r c; MergeLocal r c; PushRef r c]; r = true marks
+   the rounds of the retry loop of push_authorship_notes, which run only while the clone's
+   latest push stands rejected.  FetchNotes c = the first three steps with r = false,
+   PushNotes c = attempt false c ++ (NOTES_PUSH_ATTEMPTS - 1) x attempt true c; the sub-steps are separate
    transitions, so every interleaving with other clones' steps AND with the same clone's own
    commits is a schedule.  The existence test of refs/notes/ai is its own transition TestLocal c
    (result kept in pending); MergeLocal acts on that result (copy_ref = update-ref overwrites).
    The order of FetchTracking / TestLocal inside PushNotes / FetchNotes is read from the source
-   (Gen/GenSync.v): today [FetchTracking; TestLocal; MergeLocal; PushRef].
+   (Gen/GenSync.v): today [FetchTracking; TestLocal; MergeLocal; PushRef], three rounds.
 
    Full-strength statement (property C10): for ANY schedule, once every clone has pushed and then
    fetched, all holders have, for every commit, the note its author wrote; no push or fetch
@@ -20,11 +23,14 @@
      another step in between (then it always succeeds: C10_push_atomic_succeeds), for any prefix
      whatsoever (including earlier races and skipped pushes): C10_converge; the property's own
      suffix is C10_converge_sequential.
-   * It is FALSE when the clones' pushes overlap: C10_race_needs_repush is a schedule in which
-     both clones run all three sub-steps of a push and then fetch, the second notes push is
-     rejected as non-fast-forward and skipped without any error, and clone 0 (and the remote)
-     never see clone 1's note until clone 1 pushes again.  Known class: Known_C10 (some PushRef c
-     comes after another clone's PushRef which came after c's latest FetchTracking).
+   * When pushes overlap a round is rejected (non-fast-forward); the loop goes round again, and
+     a round is rejected only when some notes push falls between its fetch and its push
+     (C10_rejected_only_when_pushes_overlap).  Hence, for ANY interleaving of other steps into a
+     user-level push: if fewer of its rounds have a notes push inside them than it has rounds,
+     the clone's notes are on the remote when the push returns (C10_retry_succeeds, any number of
+     rounds); convergence then follows from C10_converge_from_pushed.  The bound is tight:
+     C10_retry_budget_tight (three overlapping pushes exhaust three rounds; the note is missing
+     until the next push).  The former witness of the silent skip now converges: C10_race_repaired.
    * Keys of a CLONE never disappear and convergence hold for schedules outside the copy window
      (no_commit_in_copy_window: no commit of clone c between an existence test of c that saw no
      notes ref and the copy acting on it -- in the code two consecutive git processes, show-ref
@@ -68,10 +74,12 @@ Print Assumptions C10_push_atomic_succeeds.
 (* the exact extent of the known class: a notes push whose own pre-push fetch and merge were not
    followed by ANY notes push (whatever else all clones do in between, commits included) is never
    rejected -- a rejection needs another clone's push between this clone's fetch and push *)
-Theorem C10_rejected_only_when_pushes_overlap : forall (n : nat) (pre mid1 mid2 : list step) (c : nat),
-  (c < n)%nat -> no_push mid1 = true -> no_push mid2 = true ->
-  no_commit_in_copy_window n (pre ++ [FetchTracking c] ++ mid1 ++ [TestLocal c; MergeLocal c] ++ mid2) = true ->
-  let s := run (init n) (pre ++ [FetchTracking c] ++ mid1 ++ [TestLocal c; MergeLocal c] ++ mid2) in
+Theorem C10_rejected_only_when_pushes_overlap :
+  forall (n : nat) (pre : list step) (r : bool) (mid1 mid2 : list step) (c : nat),
+  (c < n)%nat -> skip (run (init n) pre) r c = false ->
+  no_push mid1 = true -> no_push mid2 = true ->
+  no_commit_in_copy_window n (pre ++ [FetchTracking r c] ++ mid1 ++ [TestLocal r c; MergeLocal r c] ++ mid2) = true ->
+  let s := run (init n) (pre ++ [FetchTracking r c] ++ mid1 ++ [TestLocal r c; MergeLocal r c] ++ mid2) in
   push_outcome s c = PCreated \/ push_outcome s c = PUpdated \/ push_outcome s c = PNoLocal.
 Proof. exact no_reject_without_overlap. Qed.
 Print Assumptions C10_rejected_only_when_pushes_overlap.
@@ -104,30 +112,73 @@ Theorem C10_first_sync :
   (forall s c cl t, nth_error (clones s) c = Some cl -> local cl = None -> remote s = Some t ->
      local_of (run s (FetchNotes c)) c = Some t) /\
   (forall s c cl l, nth_error (clones s) c = Some cl -> local cl = Some l -> remote s = None ->
-     remote (exec s (PushRef c)) = Some l) /\
+     remote (exec s (PushRef false c)) = Some l) /\
   (forall n q, remote (run (init n) q) = None ->
      forall c cl, nth_error (clones (run (init n) q)) c = Some cl -> tracking cl = None).
 Proof. exact first_sync. Qed.
 Print Assumptions C10_first_sync.
 
-(* the full-strength reading is false when pushes overlap *)
-Theorem C10_race_needs_repush :
+(* a user-level push spread over any interleaving: rounds (steps between the fetch and the
+   test, steps between the merge and the push, steps after the round); foreign c ms: none of the
+   interleaved steps is a notes push of c itself; overlaps ms: the rounds with a notes push inside *)
+Theorem C10_retry_succeeds : forall (n : nat) (pre : list step) (c : nat) ms, (c < n)%nat ->
+  foreign c ms = true ->
+  no_commit_in_copy_window n (pre ++ spreads true c ms) = true ->
+  (overlaps ms < length ms)%nat ->
+  flag_of (run (init n) (pre ++ spreads true c ms)) c = false /\
+  sub_keys (local_map (run (init n) pre) c) (remote_map (run (init n) (pre ++ spreads true c ms))).
+Proof. exact retry_succeeds. Qed.
+Print Assumptions C10_retry_succeeds.
+
+Theorem C10_PushNotes_is_spreads :
+  forall c, PushNotes c = spreads true c [([], [], []); ([], [], []); ([], [], [])].
+Proof. exact PushNotes_spreads. Qed.
+Print Assumptions C10_PushNotes_is_spreads.
+
+Theorem C10_retry_budget_tight :
+  overlaps [(busy 10, [], []); (busy 12, [], []); (busy 13, [], [])] = 3%nat /\
+  no_commit_in_copy_window 2 exhausted = true /\
+  flag_of (run (init 2) exhausted) 1 = true /\
+  lookup 11 (remote_map (run (init 2) exhausted)) = None /\
+  lookup 11 (remote_map (run (init 2) (exhausted ++ PushNotes 1))) = Some 101.
+Proof. exact retry_exhausted. Qed.
+Print Assumptions C10_retry_budget_tight.
+
+(* convergence from the fact that every clone's notes reached the remote, however it came about
+   (an uninterleaved PushNotes: C10_push_atomic_succeeds; an interleaved one: C10_retry_succeeds) *)
+Theorem C10_converge_from_pushed : forall (n : nat) (pre q1 q2 : list step),
+  single_writer_per_key pre -> no_commit_in_copy_window n pre = true ->
+  no_commit q1 = true -> no_commit q2 = true ->
+  (forall c, (c < n)%nat ->
+     sub_keys (local_map (run (init n) pre) c) (remote_map (run (init n) (pre ++ q1)))) ->
+  (forall c, (c < n)%nat -> has_block (FetchNotes c) q2) ->
+  same_map (remote_map (run (init n) (pre ++ q1 ++ q2))) (writes n pre) /\
+  forall c, (c < n)%nat -> same_map (local_map (run (init n) (pre ++ q1 ++ q2)) c) (writes n pre).
+Proof. exact converge_from_pushed. Qed.
+Print Assumptions C10_converge_from_pushed.
+
+(* the former witness of the silent skip: both clones' first rounds overlap, the second clone's
+   first push is rejected, its retry lands the note; after the fetches everybody has everything *)
+Theorem C10_race_repaired :
   Known_C10 race2 = true /\
-  single_writer_per_key race2 /\
+  single_writer_per_key race2_users /\
   fst (run_trace (init 2) race2)
     = [None; None; None; None; None; None; None; None; Some PCreated; Some PRejected] /\
-  lookup 11 (local_map (run (init 2) race2) 1) = Some 101 /\
   lookup 11 (remote_map (run (init 2) race2)) = None /\
-  lookup 11 (local_map (run (init 2) (race2 ++ FetchNotes 0 ++ FetchNotes 1)) 0) = None /\
-  lookup 11 (remote_map (run (init 2) (race2 ++ PushNotes 1))) = Some 101.
-Proof. exact race_needs_repush. Qed.
-Print Assumptions C10_race_needs_repush.
+  lookup 11 (remote_map (run (init 2) race2_users)) = Some 101 /\
+  flag_of (run (init 2) race2_users) 1 = false /\
+  (let s := run (init 2) (race2_users ++ FetchNotes 0 ++ FetchNotes 1) in
+   canon (remote_map s) = canon (local_map s 0) /\ canon (local_map s 0) = canon (local_map s 1) /\
+   lookup 10 (local_map s 1) = Some 100 /\ lookup 11 (local_map s 0) = Some 101).
+Proof. exact race_repaired. Qed.
+Print Assumptions C10_race_repaired.
 
 (* the order of the sub-steps the theorems are about, as read from the source *)
 Theorem C10_code_order : forall c,
-  PushNotes c = [FetchTracking c; TestLocal c; MergeLocal c; PushRef c] /\
-  FetchNotes c = [FetchTracking c; TestLocal c; MergeLocal c].
-Proof. exact (fun c => conj (PushNotes_eq c) (FetchNotes_eq c)). Qed.
+  (forall r, attempt r c = [FetchTracking r c; TestLocal r c; MergeLocal r c; PushRef r c]) /\
+  PushNotes c = attempt false c ++ attempt true c ++ attempt true c /\
+  FetchNotes c = [FetchTracking false c; TestLocal false c; MergeLocal false c].
+Proof. exact (fun c => conj (fun r => attempt_eq r c) (conj (PushNotes_eq c) (FetchNotes_eq c))). Qed.
 Print Assumptions C10_code_order.
 
 (* a commit of the SAME clone while its own push / fetch has its notes fetch in flight (before the
